@@ -219,13 +219,25 @@ func checkC06(c *Check) {
 				}
 				if !hasErr && msg == "" {
 					// void function: the error must be reported through a status call before returning
-					reported := func(q Pt) bool {
-						for _, cc := range callsAt(q.Node()) {
+					eoCopies := copyClosure(info, fi.Decl.Body, eo)
+					reportsIn := func(n ast.Node) bool {
+						for _, cc := range callsAt(n) {
 							for _, a := range cc.Args {
-								if objOf(info, a) == eo {
+								if o := objOf(info, a); o != nil && eoCopies[o] {
 									return true
 								}
 							}
+						}
+						return false
+					}
+					reported := func(q Pt) bool {
+						if reportsIn(q.Node()) {
+							return true
+						}
+						// a loop over the deliveries / recipients whose body reports the error (what the fan-out helper
+						// is once it is written out in the caller): no recipients, nobody to report to
+						if rs := r.F.RangeOfX(q.Node()); rs != nil {
+							return reportsIn(rs.Body)
 						}
 						return false
 					}
